@@ -263,6 +263,14 @@ def constant_lines(t):
                 v = sg * (2 ** k + d)
                 e = '(((__int128)1 << %d) + %d)' % (k, d)
                 lines.append('V("%d/i128", %s%s)' % (v, '-' if sg < 0 else '', e))
+    # constants of UNSIGNED value types, with and without the type's top bit set (the sign test of digits_v<constant<V>>
+    # and of the factories must look at the value, not at its bit pattern)
+    for (ty, w, cast) in [('u8', 8, '(unsigned char)%dU'), ('u16', 16, '(unsigned short)%dU'), ('u32', 32, '%dU'), ('u64', 64, '%dULL')]:
+        us = {0, 1, 2, 3, 2 ** (w - 1) - 1, 2 ** (w - 1), 2 ** (w - 1) + 1, 2 ** w - 1, 2 ** w - 2, (2 ** w - 1) // 3, (2 ** w - 1) // 3 * 2, 2 ** (w - 1) + 2 ** (w - 2), 2 ** (w - 2)}
+        for v in sorted(us):
+            lines.append('V("%d/%s", %s)' % (v, ty, cast % v))
+    lines.append('V("%d/u128", ~(unsigned __int128)0 >> 1)' % (2 ** 127 - 1))
+    lines.append('V("%d/u128", ((unsigned __int128)1 << 100) + 5)' % (2 ** 100 + 5))
     v = 2 ** 127 - 1
     lines.append('V("%d/i128", (__int128)(~(unsigned __int128)0 >> 1))' % v)
     lines.append('V("%d/i128", -(__int128)(~(unsigned __int128)0 >> 1))' % -v)
